@@ -189,7 +189,7 @@ func ZZ_C20_locking() {
 	op := wire.OutPoint{Index: vU32("opindex")}
 	var h chainhash.Hash
 	msg2 := &wire.MsgFilterLoad{Filter: vBytes("filter2", 2), HashFuncs: 1}
-	var mu *sync.Mutex = &bf.mtx
+	mu := &bf.mtx // whatever lock type the filter uses
 	method := vCase("method", 0, 9)
 	if !vSymbolic() {
 		// native replay: the discipline failure must show up as a data race under -race
@@ -210,8 +210,9 @@ func ZZ_C20_locking() {
 		wg.Wait()
 		return
 	}
+	// everything reachable from the filter except the lock itself is shared state
 	vWatch(mu, bf.msgFilterLoad)
-	vWatch(mu, &bf.msgFilterLoad)
+	vWatch(mu, bf)
 	zzCall(bf, method, item, &op, &h, msg2, tx)
 	vAssert("lock:released-at-return", !vHeld(mu))
 	vAssert("lock:shared-state-was-accessed", vWatchHits() > 0)
